@@ -1,6 +1,7 @@
 package sym
 
 import (
+	"strconv"
 	"fmt"
 	"go/types"
 	"os"
@@ -642,6 +643,11 @@ func (e *Engine) propagate(hyps []*smt.Term, goal *smt.Term) ([]*smt.Term, *smt.
 		changed := false
 		truth := map[*smt.Term]bool{} // literal -> known value
 		composite := func(t *smt.Term) bool {
+			if os.Getenv("GVC_NEW_PROP") == "" {
+				// disjunctions are treated as atoms here (cheap); a disjunction with a quantified
+				// disjunct is handled by the guarded instantiation instead
+				return t.Op == smt.OAnd || t.Op == smt.OImplies || t.Op == smt.OForall
+			}
 			switch t.Op {
 			case smt.OAnd, smt.OOr, smt.OImplies, smt.OForall, smt.OExists, smt.ONot:
 				return true
@@ -840,6 +846,24 @@ func (e *Engine) splitHyp(h *smt.Term, out *[]*smt.Term) {
 	if !h.IsTrue() {
 		*out = append(*out, h)
 	}
+}
+
+// hasQuant: t contains a quantifier (memoized).
+func (e *Engine) hasQuant(t *smt.Term) bool {
+	if r, ok := e.hqMemo[t]; ok {
+		return r
+	}
+	r := t.Op == smt.OForall || t.Op == smt.OExists
+	if !r {
+		for _, a := range t.Args {
+			if e.hasQuant(a) {
+				r = true
+				break
+			}
+		}
+	}
+	e.hqMemo[t] = r
+	return r
 }
 
 // skolemBody: the body of a universally quantified formula with its bound variables
@@ -1136,14 +1160,35 @@ func (e *Engine) instantiate(hyps []*smt.Term, goal *smt.Term, skolems []*smt.Te
 	c := e.C
 	var quants, ground []*smt.Term
 	var qguards [][]*smt.Term // per entry of quants: the other (ground) disjuncts, nil if unguarded
+	hypSet := map[*smt.Term]bool{}
+	for _, h := range hyps {
+		hypSet[h] = true
+	}
 	for _, h := range hyps {
 		if h.Op == smt.OForall {
 			quants = append(quants, h)
 			qguards = append(qguards, nil)
 		} else if gq, rest := e.guardedForall(h); gq != nil {
-			// g1 or ... or (forall x. P): instances are g1 or ... or P[t]
-			quants = append(quants, gq)
-			qguards = append(qguards, rest)
+			// g1 or ... or (forall x. P)
+			refuted := true
+			for _, r := range rest {
+				if !hypSet[c.Not(r)] {
+					refuted = false
+				}
+			}
+			switch {
+			case refuted:
+				// every guard is contradicted by a literal hypothesis: a plain universal fact
+				quants = append(quants, gq)
+				qguards = append(qguards, nil)
+			case e.defImpl[h]:
+				// definition of a revealed opaque spec function: instances are g or P[t]
+				quants = append(quants, gq)
+				qguards = append(qguards, rest)
+			default:
+				// left to the solver's own quantifier handling
+				ground = append(ground, h)
+			}
 		} else if h.Op == smt.OExists {
 			// existential hypotheses: skolemise
 			m := map[*smt.Term]*smt.Term{}
@@ -1159,9 +1204,14 @@ func (e *Engine) instantiate(hyps []*smt.Term, goal *smt.Term, skolems []*smt.Te
 		return ground
 	}
 	out := ground
-	for round := 0; round < 3; round++ {
+	maxRounds := 3
+	if os.Getenv("GVC_ROUNDS") != "" {
+		fmt.Sscanf(os.Getenv("GVC_ROUNDS"), "%d", &maxRounds)
+	}
+	for round := 0; round < maxRounds; round++ {
 		// ground index terms of the current query
 		gidx := map[*smt.Term]bool{}
+		gapp := map[string]map[*smt.Term]bool{}
 		seen := map[*smt.Term]bool{}
 		var rec func(t *smt.Term)
 		rec = func(t *smt.Term) {
@@ -1179,10 +1229,15 @@ func (e *Engine) instantiate(hyps []*smt.Term, goal *smt.Term, skolems []*smt.Te
 				gidx[t.Args[1]] = true
 			}
 			if t.Op == smt.OApp && strings.HasPrefix(t.Name, "spec$") {
-				// integer arguments of uninterpreted spec functions (specTok(h, key, i), ...)
-				for _, a := range t.Args {
+				// integer arguments of uninterpreted spec functions (specTok(h, key, i), ...):
+				// candidates for quantifiers that apply the same function to their bound variable
+				for pi, a := range t.Args {
 					if a.Sort == smt.BV64 && !a.HasBound() && (a.Op == smt.OBvAdd || a.Op == smt.OConst || strings.HasPrefix(a.Name, "sk$") || strings.HasPrefix(a.Name, "wit$") || strings.HasPrefix(a.Name, "loop$")) {
-						gidx[a] = true
+						k := t.Name + "#" + strconv.Itoa(pi)
+						if gapp[k] == nil {
+							gapp[k] = map[*smt.Term]bool{}
+						}
+						gapp[k][a] = true
 					}
 				}
 			}
@@ -1219,6 +1274,7 @@ func (e *Engine) instantiate(hyps []*smt.Term, goal *smt.Term, skolems []*smt.Te
 			// patterns
 			pseen := map[*smt.Term]bool{}
 			var bases []*smt.Term
+			var appKeys []string
 			direct := false
 			var prec func(t *smt.Term)
 			prec = func(t *smt.Term) {
@@ -1234,9 +1290,9 @@ func (e *Engine) instantiate(hyps []*smt.Term, goal *smt.Term, skolems []*smt.Te
 					idx = t.Args[1]
 				}
 				if t.Op == smt.OApp && strings.HasPrefix(t.Name, "spec$") {
-					for _, a := range t.Args {
+					for pi, a := range t.Args {
 						if a == bv {
-							direct = true
+							appKeys = append(appKeys, t.Name+"#"+strconv.Itoa(pi))
 						}
 					}
 				}
@@ -1264,6 +1320,11 @@ func (e *Engine) instantiate(hyps []*smt.Term, goal *smt.Term, skolems []*smt.Te
 				}
 			}
 			prec(q.Args[0])
+			for _, k := range appKeys {
+				for g := range gapp[k] {
+					cands[g] = true
+				}
+			}
 			for _, g := range gl {
 				if direct {
 					cands[g] = true
@@ -1273,7 +1334,21 @@ func (e *Engine) instantiate(hyps []*smt.Term, goal *smt.Term, skolems []*smt.Te
 				}
 			}
 			var cl []*smt.Term
+			guarded := qi < len(qguards) && qguards[qi] != nil
 			for t := range cands {
+				if guarded && len(gl) > 24 {
+					// guarded quantifiers (callee postconditions of the form cond ==> forall ...) in
+					// memory-heavy queries: only the goal's skolem constants and named witnesses
+					keep := false
+					for _, v := range smt.FreeVars(t) {
+						if strings.HasPrefix(v.Name, "sk$") || strings.HasPrefix(v.Name, "wit$") {
+							keep = true
+						}
+					}
+					if !keep {
+						continue
+					}
+				}
 				cl = append(cl, t)
 			}
 			sort.Slice(cl, func(i, j int) bool { return cl[i].ID < cl[j].ID })
@@ -1292,14 +1367,20 @@ func (e *Engine) instantiate(hyps []*smt.Term, goal *smt.Term, skolems []*smt.Te
 			}
 		}
 		n0 := len(out)
+		newWit := false
 		have := map[*smt.Term]bool{}
 		for _, h := range out {
 			have[h] = true
 		}
+		nsk := len(e.skMemo)
 		for _, in := range inst {
 			// instances may contain nested "not forall" (named witnesses) and conjunctions
 			var parts []*smt.Term
-			e.splitHyp(in, &parts)
+			if e.hasQuant(in) {
+				e.splitHyp(in, &parts)
+			} else {
+				parts = []*smt.Term{in}
+			}
 			for _, p := range parts {
 				if have[p] {
 					continue
@@ -1313,7 +1394,22 @@ func (e *Engine) instantiate(hyps []*smt.Term, goal *smt.Term, skolems []*smt.Te
 				}
 			}
 		}
+		if len(e.skMemo) > nsk {
+			newWit = true // splitHyp named a witness: its index terms need another round
+		}
+		if os.Getenv("GVC_INST_STATS") != "" {
+			ng := 0
+			for _, g := range qguards {
+				if g != nil {
+					ng++
+				}
+			}
+			fmt.Fprintf(os.Stderr, "INST round=%d quants=%d guarded=%d ground-idx=%d instances=%d hyps=%d\n", round, len(quants), ng, len(gl), len(inst), len(out))
+		}
 		if len(out) == n0 {
+			break
+		}
+		if round >= 1 && !newWit {
 			break
 		}
 	}
@@ -1347,7 +1443,9 @@ func (e *Engine) unfoldDefs(ob *Obligation) bool {
 	var nh []*smt.Term
 	for _, h := range ob.Hyps {
 		if td, ok := e.DefEqs[h]; ok {
-			nh = append(nh, e.C.Implies(td[0], td[1]), e.C.Implies(e.C.Not(td[0]), e.C.Not(td[1])))
+			i1, i2 := e.C.Implies(td[0], td[1]), e.C.Implies(e.C.Not(td[0]), e.C.Not(td[1]))
+			e.defImpl[i1], e.defImpl[i2] = true, true
+			nh = append(nh, i1, i2)
 			continue
 		}
 		nh = append(nh, h)
